@@ -38,9 +38,10 @@ type Case struct {
 	TimeoutMs int    `json:"timeout_ms,omitempty"`
 	PauseMs   int    `json:"pause_ms,omitempty"`
 	FailAt    []int  `json:"fail_at,omitempty"`
-	AfterSec  int64  `json:"after_sec,omitempty"` // level 1: the After filter (0 = zero time)
-	Transient bool   `json:"transient,omitempty"` // level 2: only the write after Budget successful ones fails, later writes succeed again
-	Budget    int    `json:"budget"`              // level 2: successful writes before failing (-1 = never fails)
+	AfterSec  int64  `json:"after_sec,omitempty"`     // level 1: the After filter (0 = zero time)
+	Debug     bool   `json:"debug_logging,omitempty"` // audit processor (and its correlator) log at DEBUG level
+	Transient bool   `json:"transient,omitempty"`     // level 2: only the write after Budget successful ones fails, later writes succeed again
+	Budget    int    `json:"budget"`                  // level 2: successful writes before failing (-1 = never fails)
 	Items     []Item `json:"items"`
 	// preconditions of the grouping oracle, as known to the generator
 	LateRecord bool `json:"late_record,omitempty"` // a record follows its event's terminator
